@@ -94,9 +94,17 @@ class Lock:
 
 
 def prune(dirpat, keep):
-    ds = sorted(glob.glob(dirpat), key=lambda p: os.path.getmtime(p), reverse=True)
+    def mt(p):
+        try:
+            return os.path.getmtime(p)
+        except OSError:   # another check.py run pruned it meanwhile
+            return 0
+    ds = sorted(glob.glob(dirpat), key=mt, reverse=True)
     for d in ds[keep:]:
-        shutil.rmtree(d, ignore_errors=True) if os.path.isdir(d) else os.unlink(d)
+        try:
+            shutil.rmtree(d, ignore_errors=True) if os.path.isdir(d) else os.unlink(d)
+        except OSError:
+            pass
 
 
 def build_lib(flavor, tools=False):
@@ -128,7 +136,7 @@ def build_lib(flavor, tools=False):
         if tools:
             open(os.path.join(bdir, ".ok"), "w").write("ok")
         log(f"built libjwt flavor={flavor} tree={th} in {time.time()-t0:.1f}s")
-    prune(os.path.join(CACHE, "lib", f"{flavor}-*"), 4)
+    prune(os.path.join(CACHE, "lib", f"{flavor}-*"), 8)
     return bdir
 
 
